@@ -1,6 +1,119 @@
 package main
 
-// genLemmas generates the obligations of spec-level lemmas tagged with prop.
-func genLemmas(P *Program, prop string) ([]*Obligation, []string) {
-	return nil, nil
+import (
+	"fmt"
+	"go/types"
+	"strings"
+)
+
+// genLemmas generates the obligations of spec-level lemmas. A lemma is proved
+// over an arbitrary heap; with "induction <measure>" the induction hypothesis
+// (the lemma for all parameter values with a smaller non-negative measure) is
+// assumed.
+func genLemmas(P *Program, prop string) (obs []*Obligation, errs []string) {
+	for _, lm := range P.contracts.Lemmas {
+		in := prop == ""
+		for _, p := range lm.Props {
+			if p == prop {
+				in = true
+			}
+		}
+		if !in {
+			continue
+		}
+		ob, err := genLemma(P, lm)
+		if err != nil {
+			errs = append(errs, err.Error())
+			continue
+		}
+		obs = append(obs, ob)
+	}
+	return
+}
+
+func genLemma(P *Program, lm *Lemma) (ob *Obligation, err error) {
+	defer func() {
+		if r := recover(); r != nil {
+			if u, ok := r.(unsupportedErr); ok {
+				err = fmt.Errorf("lemma %s: %v", lm.Name, u)
+				return
+			}
+			panic(r)
+		}
+	}()
+	vc := &VC{prog: P, declSet: map[string]bool{}, compSorts: map[string]string{}, touched: map[string]bool{},
+		strLits: map[string]string{}, params: map[string]Val{}, counters: map[string]int{}, usedExt: map[string]bool{}, usedSpecs: map[string]bool{}}
+	vc.declare("|alloc@0|", "Int")
+	vc.curReach = "true"
+	st := &State{heaps: map[string]string{}, pseudo: map[string]string{}, alloc: "|alloc@0|"}
+	var pkg *types.Package
+	for _, p := range P.allPkgs {
+		if p.Path() == lm.Pkg {
+			pkg = p
+		}
+	}
+	vc.lemmaPkg = pkg
+	mkEnv := func(prefix string, declare bool) (*Env, []string, []string) {
+		env := &Env{vc: vc, names: map[string]envEntry{}, pkg: pkg}
+		var binders, guards []string
+		for _, p := range lm.Params {
+			t := P.resolveType(p.Type, pkg)
+			name := "|" + prefix + p.Name + "|"
+			v := Val{K: kindOf(t), T: t, S: name}
+			if declare {
+				vc.declare(name, sortOfType(t))
+			}
+			binders = append(binders, "("+name+" "+sortOfType(t)+")")
+			if g := vc.typeAssume(v, st.alloc); g != "true" {
+				guards = append(guards, g)
+			}
+			env.names[p.Name] = envEntry{val: &v}
+		}
+		return env, binders, guards
+	}
+	env, _, guards := mkEnv("l:", true)
+	var hyps []string
+	hyps = append(hyps, guards...)
+	for _, c := range lm.Requires {
+		hyps = append(hyps, vc.evalBool(c.E, env, st, st))
+	}
+	var goals []string
+	for _, c := range lm.Ensures {
+		goals = append(goals, vc.evalBool(c.E, env, st, st))
+	}
+	if lm.Induct != "" {
+		me, perr := parseExpr(lm.Induct)
+		if perr != nil {
+			return nil, fmt.Errorf("lemma %s: %v", lm.Name, perr)
+		}
+		m0 := vc.evalVal(me, env, st, st).S
+		ienv, binders, iguards := mkEnv("i:", false)
+		m1 := vc.evalVal(me, ienv, st, st).S
+		var ihyp []string
+		ihyp = append(ihyp, iguards...)
+		ihyp = append(ihyp, sx("<=", "0", m1), sx("<", m1, m0))
+		for _, c := range lm.Requires {
+			ihyp = append(ihyp, vc.evalBool(c.E, ienv, st, st))
+		}
+		var igoal []string
+		for _, c := range lm.Ensures {
+			igoal = append(igoal, vc.evalBool(c.E, ienv, st, st))
+		}
+		hyps = append(hyps, fmt.Sprintf("(forall (%s) (=> %s %s))", strings.Join(binders, " "), and(ihyp...), and(igoal...)))
+	}
+	var b strings.Builder
+	b.WriteString(prelude)
+	b.WriteString(preludeExtra)
+	for _, d := range vc.decls {
+		b.WriteString(d + "\n")
+	}
+	b.WriteString(vc.specDecls())
+	for _, f := range vc.facts {
+		b.WriteString("(assert " + f.text + ")\n")
+	}
+	for _, h := range hyps {
+		b.WriteString("(assert " + h + ")\n")
+	}
+	b.WriteString("(assert (not " + and(goals...) + "))\n(check-sat)\n")
+	return &Obligation{Name: "lemma:" + lm.Name, Class: "lemma", Props: lm.Props, Func: "lemma " + lm.Name, raw: b.String()}, nil
 }
